@@ -413,6 +413,7 @@ static struct {
     void (*park_setup)(int); void (*park_thread_is_me)(void); int (*park_events)(void); int (*is_parked)(void);
     void (*release)(void); int (*wait_parked)(volatile int *, int);
     void (*aux_setup)(int); void (*aux_thread_is_me)(void); int (*aux_parked)(void);
+    void (*hold_waiters)(int); int (*waiters)(void);
     void (*coop_setup)(int, const int *, int); const char *(*coop_trace)(void); int (*coop_steps)(void); int (*deadlocked)(void);
     void (*coop_thread_start)(int); void (*coop_thread_exit)(void); void (*coop_run)(void); void (*coop_point)(char);
 } S;
@@ -423,6 +424,7 @@ static void sched_load(void)
     L(mode, "sched_mode"); L(lib_found, "sched_lib_found"); L(on_deadlock, "sched_on_deadlock"); L(park_setup, "sched_park_setup");
     L(park_thread_is_me, "sched_park_thread_is_me"); L(park_events, "sched_park_events"); L(is_parked, "sched_is_parked");
     L(aux_setup, "sched_aux_setup"); L(aux_thread_is_me, "sched_aux_thread_is_me"); L(aux_parked, "sched_aux_parked");
+    L(hold_waiters, "sched_hold_waiters"); L(waiters, "sched_waiters");
     L(release, "sched_release"); L(wait_parked, "sched_wait_parked"); L(coop_setup, "sched_coop_setup"); L(coop_trace, "sched_coop_trace");
     L(coop_steps, "sched_coop_steps"); L(deadlocked, "sched_deadlocked"); L(coop_thread_start, "sched_coop_thread_start");
     L(coop_thread_exit, "sched_coop_thread_exit"); L(coop_run, "sched_coop_run"); L(coop_point, "sched_coop_point");
@@ -976,6 +978,35 @@ static const char *timeout_status(pid_t pid)
     return "timeout";
 }
 
+/* second forking thread of op J: fork()s on its own while the main thread is about to do the same; its child makes the child's call */
+typedef struct { call_t *cc; volatile int forked; const char *status; } forker_t;
+static void *forker_main(void *p)
+{
+    forker_t *f = p;
+    pid_t pid = fork();
+    if (pid == 0) {
+        g_no_drain = 1;
+        for (int q = 0; q < nsinks; q++) if (sinks[q].fd >= 0) fcntl(sinks[q].fd, F_SETFD, FD_CLOEXEC);
+        S.on_deadlock(on_deadlock_exit);
+        prctl(PR_SET_PDEATHSIG, SIGKILL);
+        call_run(f->cc);
+        emit_simple('c', "forker-child-call-completed");
+        _exit(0);
+    }
+    f->forked = 1;
+    f->status = "ok";
+    if (pid < 0) { f->status = "forkfailed"; return NULL; }
+    int st = 0, waited = 0;
+    for (int ms = 0; ms < 10000; ms++) {
+        if (waitpid(pid, &st, WNOHANG) == pid) { waited = 1; break; }
+        usleep(1000);
+    }
+    if (!waited) { f->status = timeout_status(pid); kill(pid, SIGKILL); waitpid(pid, &st, 0); }
+    else if (WIFEXITED(st) && WEXITSTATUS(st) == 77) f->status = "deadlock";
+    else if (!(WIFEXITED(st) && WEXITSTATUS(st) == 0)) f->status = "abnormal";
+    return NULL;
+}
+
 /* ------------------------------------------------------------------ threads (C09) */
 typedef struct { call_t *calls; int n; pthread_barrier_t *bar; int coop_index; volatile int *done; int park; volatile long long t0, t1; } thr_t;
 static long long now_us(void) { struct timespec ts; clock_gettime(CLOCK_MONOTONIC, &ts); return ts.tv_sec * 1000000LL + ts.tv_nsec / 1000; }
@@ -1374,7 +1405,19 @@ static void run_ops(op_t *ops, int nops)
             }
             /* (no fflush(NULL) here: a thread stopped inside the library may hold a stdio stream lock, and flushing is not the harness's
                business at this point -- its own reporting does not go through stdio) */
+            int twofork = op->n > 5 ? arg_int(&op->a[5]) : 0;
+            forker_t fk = { &cc, 0, "none" };
+            pthread_t ftid;
+            if (twofork && S.hold_waiters) {
+                /* a further thread fork()s first; where it has to wait for the parked thread (inside its fork handlers) it keeps
+                   waiting until the main thread's fork() has either happened or is waiting at the same place */
+                S.hold_waiters(2);
+                pthread_create(&ftid, NULL, forker_main, &fk);
+                for (int ms = 0; ms < 600 && !fk.forked && S.waiters() < 1; ms++) usleep(500);
+                if (!fk.forked) usleep(3000);
+            }
             pid_t pid = fork();
+            if (pid != 0 && twofork && S.hold_waiters) S.hold_waiters(0);
             if (pid == 0) {
                 g_no_drain = 1;
                 /* the sinks stay the parent's: a really exec'd program must not drain them either */
@@ -1419,8 +1462,9 @@ static void run_ops(op_t *ops, int nops)
             S.release();
             pthread_join(tid, NULL);
             for (int q = 0; q < naux && S.aux_setup; q++) pthread_join(atid[q], NULL);
+            if (twofork && S.hold_waiters) pthread_join(ftid, NULL);
             { ev_t e = {0}; ev_begin(&e, 'j'); ev_int(&e, k); ev_int(&e, parked); ev_int(&e, S.park_events()); ev_str(&e, status);
-              ev_int(&e, was_parked_at_end); ev_int(&e, depth); ev_int(&e, aux_parked); ev_end(&e); ev_free(&e); }
+              ev_int(&e, was_parked_at_end); ev_int(&e, depth); ev_int(&e, aux_parked); ev_str(&e, fk.status); ev_end(&e); ev_free(&e); }
             S.mode(0);
             i += 2;
             break; }
